@@ -37,3 +37,73 @@ Definition load_section_plugins_p (dp : dparams) (perm : list name -> list name)
     end.
 
 Definition ref_dparams : dparams := mkDparams SAfter SBefore true.
+
+(* ---- load_configuration (src/cobald/daemon/config/mapping.py): the order of its three phases and the two tests inside the
+        digest loop, as extracted by the translator ---- *)
+Inductive phase :=
+| PLogging        (* try: m = config_data.pop("logging") except KeyError: pass else: configure_logging(m) *)
+| PValidate       (* unmatched = config_data.keys() - {sections}; if unmatched: raise ConfigurationError *)
+| PDigest.        (* content = {}; for plugin in plugins: ...; (the result is content) *)
+
+Inductive missing_rule := MRequired | MAlways | MNever.     (* on a missing section: `if plugin.required: raise` / raise / ignore *)
+Inductive store_rule := SNotNone | STruthy | SAlways.        (* `if plugin_content is not None:` / `if plugin_content:` / always *)
+
+Record lparams := mkLparams { l_phases : list phase; l_missing : missing_rule; l_store : store_rule }.
+
+(* which result tokens stand for falsy python values (0, "", [], False): the correspondence harness' numbering *)
+Definition falsy_token (v : nat) : bool := Nat.ltb v 4.
+
+Definition missing_raises (m : missing_rule) (p : plugin) : bool :=
+  match m with MRequired => required p | MAlways => true | MNever => false end.
+
+Definition stored (lp : lparams) (p : plugin) : option (nat * nat) :=
+  match ret p, l_store lp with
+  | Some v, SNotNone => Some (pid p, v)
+  | Some v, STruthy => if falsy_token v then None else Some (pid p, v)
+  | Some v, SAlways => Some (pid p, v)
+  | None, _ => None              (* SAlways would store None itself: not expressible in `outcome`, never generated *)
+  end.
+
+Fixpoint digest_loop_p (lp : lparams) (cfg : config) (ps : list plugin) : outcome * list event :=
+  match ps with
+  | [] => (Ok [], [])
+  | p :: r =>
+      match cfg_get cfg (section p) with
+      | None =>
+          if missing_raises (l_missing lp) p then (Err (MissingSection (section p)), [])
+          else digest_loop_p lp cfg r
+      | Some data =>
+          let '(out, log) := digest_loop_p lp cfg r in
+          (match out with
+           | Ok c => Ok (match stored lp p with Some e => e :: c | None => c end)
+           | Err e => Err e
+           end, EvDigest (pid p) data :: log)
+      end
+  end.
+
+(* run the phases in order; the first error ends the call; the result is what the digest phase collected *)
+Fixpoint phases_p (lp : lparams) (phs : list phase) (ps : list plugin) (cfg : config) (log : list event) (acc : list (nat * nat))
+  : outcome * list event :=
+  match phs with
+  | [] => (Ok acc, log)
+  | PLogging :: r =>
+      match cfg_get cfg logging_name with
+      | Some m => phases_p lp r ps (cfg_pop logging_name cfg) (log ++ [EvLogging m]) acc
+      | None => phases_p lp r ps cfg log acc
+      end
+  | PValidate :: r =>
+      match unmatched cfg ps with
+      | (_ :: _) as ks => (Err (UnknownSections ks), log)
+      | [] => phases_p lp r ps cfg log acc
+      end
+  | PDigest :: r =>
+      match digest_loop_p lp cfg ps with
+      | (Ok c, l) => phases_p lp r ps cfg (log ++ l) c
+      | (Err e, l) => (Err e, log ++ l)
+      end
+  end.
+
+Definition load_configuration_p (lp : lparams) (cfg : config) (ps : list plugin) : outcome * list event :=
+  phases_p lp (l_phases lp) ps cfg [] [].
+
+Definition ref_lparams : lparams := mkLparams [PLogging; PValidate; PDigest] MRequired SNotNone.
